@@ -1,9 +1,7 @@
 package props
 
 import (
-	"bytes"
 	"encoding/hex"
-	"fmt"
 	"testing"
 
 	"verifh/refcrypto"
@@ -16,62 +14,9 @@ func hx(s string) []byte {
 	}
 	return b
 }
-func k16(s string) (k [16]byte) { copy(k[:], hx(s)); return }
 
-// TestSelfCrypto: the reference implementations must reproduce published known answers
-// before any verdict that depends on them is believed.
 func TestSelfCrypto(t *testing.T) {
-	if fmt.Sprintf("%x", refcrypto.SR[:4]) != "637c777b" || fmt.Sprintf("%x", refcrypto.SQ[:6]) != "25247367d7ae" {
-		t.Fatalf("S-boxes: SR=%x SQ=%x", refcrypto.SR[:4], refcrypto.SQ[:6])
+	if err := refcrypto.SelfTest(); err != nil {
+		t.Fatal(err)
 	}
-	// SNOW 3G specification, test set 1
-	z := refcrypto.NewSnow([4]uint32{0x2BD6459F, 0x82C5B300, 0x952C4910, 0x4881FF48}, [4]uint32{0xEA024714, 0xAD5C4D84, 0xDF1F9B25, 0x1C0BF45F})
-	if a, b := z.Word(), z.Word(); a != 0xABEE9704 || b != 0x7AC31373 {
-		t.Fatalf("snow3g set1: %08X %08X", a, b)
-	}
-	// UEA2 / 128-EEA1 test set 1 (253 bits)
-	ck := k16("D3C5D592327FB11C4035C6680AF8C6D1")
-	pt := hx("981BA6824C1BFB1AB485472029B71D808CE33E2CC3C0B5FC1F3DE8A6DC66B1F0")
-	if ct := refcrypto.EEA1(ck, 0x398A59B4, 0x15, 1, pt, 253); !bytes.Equal(ct, hx("5D5BFE75EB04F68CE0A12377EA00B37D47C6A0BA06309155086A859C4341B378")) {
-		t.Fatalf("eea1 set1: %X", ct)
-	}
-	// 128-EEA2 TS 33.401 C.1 test set 1 (253 bits -> compare the first 31 octets and the top 5 bits of the last)
-	ct2 := refcrypto.EEA2(ck, 0x398A59B4, 0x15, 1, pt)
-	want2 := hx("E9FED8A63D155304D71DF20BF3E82214B20ED7DAD2F233DC3C22D7BDEEED8E78")
-	if !bytes.Equal(ct2[:31], want2[:31]) || ct2[31]&0xF8 != want2[31]&0xF8 {
-		t.Fatalf("eea2 set1: %X", ct2)
-	}
-	// RFC 4493
-	k := k16("2b7e151628aed2a6abf7158809cf4f3c")
-	m := hx("6bc1bee22e409f96e93d7e117393172aae2d8a571e03ac9c9eb76fac45af8e5130c81c46a35ce411e5fbc1191a0a52eff69f2445df4f9b17ad2b417be66c3710")
-	for n, w := range map[int]string{0: "bb1d6929e95937287fa37d129b756746", 16: "070a16b46b4d4144f79bdd9dd04a287c", 40: "dfa66747de9ae63030ca32611497c827", 64: "51f0bebf7e3b9d92fc49741779363cfe"} {
-		if got := refcrypto.CMAC(k, m[:n]); fmt.Sprintf("%x", got) != w {
-			t.Fatalf("cmac %d: %x", n, got)
-		}
-	}
-	// 128-EIA2 TS 33.401 C.2 test set 2
-	if mac := refcrypto.EIA2(k16("D3C5D592327FB11C4035C6680AF8C6D1"), 0x398A59B4, 0x1A, 1, hx("484583D5AFE082AE")); fmt.Sprintf("%X", mac) != "B93787E6" {
-		t.Fatalf("eia2 set2: %X", mac)
-	}
-	// 128-EIA1 TS 33.401 C.4 test set 1
-	if mac := refcrypto.EIA1(k16("2BD6459F82C5B300952C49104881FF48"), 0x38A6F056, 0x1F, 0, hx("3332346263393861373479"), 88); fmt.Sprintf("%X", mac) != "731F1165" {
-		t.Fatalf("eia1 set1: %X", mac)
-	}
-	// Milenage TS 35.208 test set 1
-	o := refcrypto.Milenage(k16("465b5ce8b199b49faa5f0a2ee238a6bc"), k16("cd63cb71954a9f4e48a5994e37a02baf"), k16("23553cbe9637a89d218ae64dae47bf35"),
-		[6]byte{0xff, 0x9b, 0xb4, 0xd0, 0xb6, 0x07}, [2]byte{0xb9, 0xb9})
-	chk := func(name string, got []byte, want string) {
-		if fmt.Sprintf("%x", got) != want {
-			t.Fatalf("milenage set1 %s: %x want %s", name, got, want)
-		}
-	}
-	chk("f1", o.MacA[:], "4a9ffac354dfafb3")
-	chk("f1*", o.MacS[:], "01cfaf9ec4e871e9")
-	chk("f2", o.Res[:], "a54211d5e3ba50bf")
-	chk("f3", o.CK[:], "b40ba9a3c58b2a05bbf0d987b21bf8cb")
-	chk("f4", o.IK[:], "f769bcd751044604127672711c6d3441")
-	chk("f5", o.AK[:], "aa689c648370")
-	chk("f5*", o.AKs[:], "451e8beca43b")
-	opc := refcrypto.OPc(k16("465b5ce8b199b49faa5f0a2ee238a6bc"), k16("cdc202d5123e20f62b6d676ac72cb318"))
-	chk("opc", opc[:], "cd63cb71954a9f4e48a5994e37a02baf")
 }
